@@ -93,6 +93,11 @@ def scenarios(ctx, prop):
     # generator so that the scenario stream itself is unchanged; corpus scenarios are left as they were recorded)
     r2 = random.Random(ctx.seed * 7919 + 4242 + int(prop[1:]))
     for sc in out[len([c for c in ctx.corpus() if c.get('kind') == 'scenario']):]:
+        if r2.random() < 0.3:
+            sc['prepared'] = True       # event objects are created ahead of time, in another order than they are fired
+            ctx.count('event_objects', 'prepared-ahead')
+        else:
+            ctx.count('event_objects', 'created-at-fire')
         for c in sc.get('comps', []):
             for h in c.get('handlers', []):
                 if r2.random() < 0.25:
